@@ -86,6 +86,10 @@ def rand_do(rnd, sp):
         return {"op": "Do", "drv": "c11", "case": {"mode": sp, "a": rnd.choice([{"y": 1}, {"y": 2, "mo": 1}, {"y": -1, "d": 3}, {"mo": 12}]),
                                                      "b": rnd.choice([{"mo": 12}, {"d": 360}, {"d": 365}, {"d": 366}, {"y": 1}]),
                                                      "c": c11.rand_dur(rnd), "n": rnd.randint(-3, 3)}}
+    if rnd.random() < 0.08:
+        # Unix time: the day count from 1970 goes through the year lengths of the mode, leap years before the epoch included
+        p = gen.rand_point(rnd, m, wide=False, whole=True, allow24=False, years=[1968, 1964, 1969, 1970, 1972, 1900, 2000, 2020, 1600], zones=[(0, 0), (5, 30), (-3, -30)])
+        return {"op": "Do", "drv": "c18", "case": {"kind": "since", "mode": sp, "p": dict(p, prec="hms", mi=max(p["mi"], 0), ss=max(p["ss"], 0))}}
     if rnd.random() < 0.18:
         # truncated additions: the search for the next 29th / day 366 / week 53 depends on the mode's month and year lengths
         from harness.drivers import c20
